@@ -566,7 +566,7 @@ def run(ctx):
         one_table(ctx, world, -1, forced=(
             "partial", "tuple<set<uint8_t>,sequence<foo>>",
             (2).to_bytes(8, "little") + b"\x05\x05" + bytes(8), False))
-        n = ctx.scale(3000, 60000)
+        n = ctx.scale(12000, 60000)
         for i in range(n):
             if not one_table(ctx, world, i):
                 if len(ctx.violations) >= 3:
